@@ -1069,3 +1069,177 @@ pub fn nested_grid(rng: &mut Rng, n_depth3: usize, as_message: bool) -> Vec<Nest
     }
     v
 }
+
+// ------------------------------------------------------------------ shared objects that have NO children when copied
+// The same empty array (or a struct holding immediates only) is reachable along 2-3 paths of one value — struct
+// fields, array elements, tuple components, variant payloads, a closure capture and a field.  The copy (a task's
+// capture, a channel message) must keep it ONE object: the receiver mutates through one path and observes through
+// every other; the sender does the same on its original afterwards.
+
+pub fn gen_shared_childless(rng: &mut Rng, i: usize, as_message: bool) -> NestCase {
+    let k = rng.range(100, 199);
+    let k2 = rng.range(200, 299);
+    let a0 = rng.range(0, 99);
+    // (class, decls, lets, type of `top`, mutation stmts on root R, observation exprs on root R,
+    //  model value, T-mutation ops, show ops as (kind, path) on either side, expected observations after (k.., k2..))
+    struct Sh {
+        class: &'static str,
+        decls: String,
+        lets: String,
+        ty: String,
+        mutate: Box<dyn Fn(&str, i64) -> String>,
+        obs: Vec<Box<dyn Fn(&str) -> String>>,
+        sx: String,
+        mut_ops: Box<dyn Fn(&str, i64) -> String>,
+        show_ops: Vec<String>,
+        expect: Box<dyn Fn(i64) -> Vec<String>>,
+    }
+    let arr2 = |k: i64| format!("(A {k} {})", k + 1);
+    let sh: Sh = match i % 9 {
+        0 => Sh {
+            class: "two-struct-fields",
+            decls: "type Two = {\n  p: array<int>\n  q: array<int>\n}\n".into(),
+            lets: "let e: array<int> = []\nlet top = Two(e, e)\n".into(),
+            ty: "Two".into(),
+            mutate: Box::new(|r, k| format!("{r}.p.push({k})\n{r}.p.push({})\n", k + 1)),
+            obs: vec![Box::new(|r| format!("show_arrint({r}.q)"))],
+            sx: "(S &0=(A) &0)".into(),
+            mut_ops: Box::new(|s, k| format!("{s} push 0.0 {k} ; {s} push 0.0 {}", k + 1)),
+            show_ops: vec!["show 0.1".into()],
+            expect: Box::new(move |k| vec![arr2(k)]),
+        },
+        1 => Sh {
+            class: "three-array-elements",
+            decls: String::new(),
+            lets: "let e: array<int> = []\nlet top = [e, e, e]\n".into(),
+            ty: "array<array<int>>".into(),
+            mutate: Box::new(|r, k| format!("{r}[0].push({k})\n{r}[0].push({})\n", k + 1)),
+            obs: vec![Box::new(|r| format!("show_arrint({r}[1])")), Box::new(|r| format!("show_arrint({r}[2])"))],
+            sx: "(A &0=(A) &0 &0)".into(),
+            mut_ops: Box::new(|s, k| format!("{s} push 0.0 {k} ; {s} push 0.0 {}", k + 1)),
+            show_ops: vec!["show 0.1".into(), "show 0.2".into()],
+            expect: Box::new(move |k| vec![arr2(k), arr2(k)]),
+        },
+        2 => Sh {
+            class: "two-tuple-components",
+            decls: "fn fst2(p: (array<int>, array<int>)) -> array<int> {\n  let (a, b) = p\n  a\n}\nfn snd2(p: (array<int>, array<int>)) -> array<int> {\n  let (a, b) = p\n  b\n}\n".into(),
+            lets: "let e: array<int> = []\nlet top = (e, e)\n".into(),
+            ty: "(array<int>, array<int>)".into(),
+            mutate: Box::new(|r, k| format!("fst2({r}).push({k})\nfst2({r}).push({})\n", k + 1)),
+            obs: vec![Box::new(|r| format!("show_arrint(snd2({r}))"))],
+            sx: "(S &0=(A) &0)".into(),
+            mut_ops: Box::new(|s, k| format!("{s} push 0.0 {k} ; {s} push 0.0 {}", k + 1)),
+            show_ops: vec!["show 0.1".into()],
+            expect: Box::new(move |k| vec![arr2(k)]),
+        },
+        3 => Sh {
+            class: "two-variant-payloads",
+            decls: NEST_HELPERS.into(),
+            lets: "let e: array<int> = []\nlet top = [option.some(e), option.some(e)]\n".into(),
+            ty: "array<option<array<int>>>".into(),
+            mutate: Box::new(|r, k| format!("get({r}[0]).push({k})\nget({r}[0]).push({})\n", k + 1)),
+            obs: vec![Box::new(|r| format!("show_arrint(get({r}[1]))"))],
+            sx: "(A (V 0 &0=(A)) (V 0 &0))".into(),
+            mut_ops: Box::new(|s, k| format!("{s} push 0.0.0 {k} ; {s} push 0.0.0 {}", k + 1)),
+            show_ops: vec!["show 0.1.0".into()],
+            expect: Box::new(move |k| vec![arr2(k)]),
+        },
+        4 => Sh {
+            class: "closure-capture-and-field",
+            decls: format!("{NEST_HELPERS}type Cf = {{\n  f: int -> array<int>\n  a: array<int>\n}}\n"),
+            lets: "let e: array<int> = []\nlet ff: int -> array<int> = z -> e\nlet top = Cf(ff, e)\n".into(),
+            ty: "Cf".into(),
+            mutate: Box::new(|r, k| format!("{r}.a.push({k})\n{r}.a.push({})\n", k + 1)),
+            obs: vec![Box::new(|r| format!("show_arrint(call0({r}.f))"))],
+            sx: "(S (S 0 &0=(A)) &0)".into(),
+            mut_ops: Box::new(|s, k| format!("{s} push 0.1 {k} ; {s} push 0.1 {}", k + 1)),
+            show_ops: vec!["show 0.0.1".into()],
+            expect: Box::new(move |k| vec![arr2(k)]),
+        },
+        5 => Sh {
+            class: "struct-of-immediates-shared",
+            decls: "type Cell = {\n  v: int\n}\ntype Pairc = {\n  a: Cell\n  b: Cell\n  c: array<Cell>\n}\n".into(),
+            lets: format!("let cl = Cell({a0})\nlet top = Pairc(cl, cl, [cl])\n"),
+            ty: "Pairc".into(),
+            mutate: Box::new(|r, k| format!("{r}.a.v = {k}\n")),
+            obs: vec![Box::new(|r| format!("show_int({r}.b.v)")), Box::new(|r| format!("show_int({r}.c[0].v)"))],
+            sx: format!("(S &0=(S {a0}) &0 (A &0))"),
+            mut_ops: Box::new(|s, k| format!("{s} set 0.0 0 {k}")),
+            show_ops: vec!["show 0.1.0".into(), "show 0.2.0.0".into()],
+            expect: Box::new(|k| vec![format!("{k}"), format!("{k}")]),
+        },
+        6 => Sh {
+            class: "empty-array-of-void",
+            decls: "type Tv = {\n  p: array<void>\n  q: array<void>\n}\n".into(),
+            lets: "let e: array<void> = []\nlet top = Tv(e, e)\n".into(),
+            ty: "Tv".into(),
+            mutate: Box::new(|r, _| format!("{r}.p.push(nil)\n{r}.p.push(nil)\n")),
+            obs: vec![Box::new(|r| format!("show_int({r}.q.len())"))],
+            sx: "(S &0=(A) &0)".into(),
+            mut_ops: Box::new(|s, _| format!("{s} push 0.0 0 ; {s} push 0.0 0")),
+            show_ops: vec!["len 0.1".into()],
+            expect: Box::new(|_| vec!["2".into()]),
+        },
+        7 => Sh {
+            class: "empty-nested-arrays",
+            decls: "type Tn = {\n  p: array<array<int>>\n  q: array<array<int>>\n}\n".into(),
+            lets: "let e: array<array<int>> = []\nlet top = Tn(e, e)\n".into(),
+            ty: "Tn".into(),
+            mutate: Box::new(|r, k| format!("{r}.p.push([{k}])\n{r}.p.push([])\n")),
+            obs: vec![Box::new(|r| format!("show_arrarr({r}.q)"))],
+            sx: "(S &0=(A) &0)".into(),
+            mut_ops: Box::new(|s, k| format!("{s} pushv 0.0 (A {k}) ; {s} pushv 0.0 (A)")),
+            show_ops: vec!["show 0.1".into()],
+            expect: Box::new(|k| vec![format!("(A (A {k}) (A))")]),
+        },
+        _ => Sh {
+            class: "field-and-element-of-inner-array",
+            decls: "type Tw = {\n  p: array<int>\n  all: array<array<int>>\n}\n".into(),
+            lets: "let e: array<int> = []\nlet top = Tw(e, [e, e])\n".into(),
+            ty: "Tw".into(),
+            mutate: Box::new(|r, k| format!("{r}.all[1].push({k})\n{r}.all[1].push({})\n", k + 1)),
+            obs: vec![Box::new(|r| format!("show_arrint({r}.p)")), Box::new(|r| format!("show_arrint({r}.all[0])"))],
+            sx: "(S &0=(A) (A &0 &0))".into(),
+            mut_ops: Box::new(|s, k| format!("{s} push 0.1.1 {k} ; {s} push 0.1.1 {}", k + 1)),
+            show_ops: vec!["show 0.0".into(), "show 0.1.0".into()],
+            expect: Box::new(move |k| vec![arr2(k), arr2(k)]),
+        },
+    };
+    let mut s = String::from(DECLS);
+    s.push_str(&sh.decls);
+    s.push_str("let out: channel<string> = channel()\n");
+    if as_message {
+        s.push_str(&format!("let c: channel<{}> = channel()\n", sh.ty));
+    }
+    s.push_str(&sh.lets);
+    let troot = if as_message { "x" } else { "top" };
+    s.push_str("task {\n");
+    if as_message {
+        s.push_str("  let x = c.read()\n");
+    }
+    s.push_str(&indent(&(sh.mutate)(troot, k), "  "));
+    for (j, o) in sh.obs.iter().enumerate() {
+        s.push_str(&format!("  let s{j} = {}\n  out.write(s{j})\n", o(troot)));
+    }
+    s.push_str("}\n");
+    if as_message {
+        s.push_str("c.write(top)\n");
+    }
+    for j in 0..sh.obs.len() {
+        s.push_str(&format!("let r{j} = out.read()\n"));
+    }
+    // the sender / spawner then changes its original through the same path and looks through the others
+    s.push_str(&(sh.mutate)("top", k2));
+    for j in 0..sh.obs.len() {
+        s.push_str(&format!("println(r{j})\n"));
+    }
+    for o in &sh.obs {
+        s.push_str(&format!("println({})\n", o("top")));
+    }
+    let mut expected = (sh.expect)(k);
+    expected.extend((sh.expect)(k2));
+    let shows = |side: &str| sh.show_ops.iter().map(|o| format!("{side} {o}")).collect::<Vec<_>>().join(" ; ");
+    let ops = format!("{} ; {} ; {} ; {}", (sh.mut_ops)("T", k), shows("T"), (sh.mut_ops)("M", k2), shows("M"));
+    let model = if as_message { (format!("heapsend {} | W 0 ; R ; {ops}", sh.sx), false) } else { (format!("heapalias {} | {ops}", sh.sx), true) };
+    NestCase { src: s, class: format!("shared-childless{}:{}", if as_message { "-msg" } else { "" }, sh.class), expected, model: Some(model) }
+}
